@@ -2,11 +2,14 @@
 (* Acceptor for recorded outcomes of calls (C03 argument binding).  The case file is         *)
 (*   [shapes : Seq(shape), obs : Seq(outcome), groups : Seq(group)]; a group holds the calls  *)
 (* made to one signature by one interpreter:                                                *)
-(*   [id, who, sig, res : Seq(STRING), calls : Seq(<<shape index, outcome index>>)]          *)
+(*   [id, who, sig, res : Seq(STRING), val : Seq(<<source tag, value tag>>) (the valuation:  *)
+(*    which values the definition and the calls of the group were written with),             *)
+(*    calls : Seq(<<shape index, outcome index>>)]                                           *)
 (* shape: the call as written (PyBind shape); outcome: what was observed                    *)
-(*   [k : "ok" | exception type name, b : Seq(STRING) (source of every parameter, in the    *)
-(*    order of AllParams: "p<i>" positional value i, "k:<name>" keyword, "d:<name>" default),*)
-(*    va : Seq(Nat) (positional values in *va), kw : Seq(STRING) (names in **kw)]           *)
+(*   [k : "ok" | exception type name, b : Seq(STRING) (the VALUE every parameter received,   *)
+(*    in the order of AllParams, as a value tag: under the empty valuation "p<i>" positional *)
+(*    value i, "k:<name>" keyword, "d:<name>" default; else e.g. "NoneType:None", "int:0"),  *)
+(*    va : Seq(STRING) (values in *va), kw : Seq(STRING) (names in **kw), kwv (their values)]*)
 (* Verdict: ACCEPT iff o is the outcome of Bind (flags = {}, Reserved = res).  Otherwise the *)
 (* acceptor looks for the smallest set of named deviations that explains o and prints it    *)
 (* (the signature of a known finding), "unexplained" if there is none.                      *)
@@ -15,10 +18,15 @@ File == JsonDeserialize(IOEnv.CASES)
 Cases == File.groups
 AllFlags == {"posonly-kw", "dup-kw"}
 
-Same(sig, e, o) ==
+\* val: the valuation of the group (PyBind: which value is written at which source; <<>> = every source carries
+\* its own tag).  The observed VALUE of every parameter, of every element of *va and of every entry of **kw
+\* must be the value written at the source Bind assigns.
+Same(sig, e, o, val) ==
   IF e.k # o.k THEN FALSE
   ELSE IF e.k # "ok" THEN TRUE
-  ELSE /\ Sources(sig, e) = o.b /\ e.va = o.va /\ e.kwmap = Range(o.kw) /\ Len(o.kw) = Cardinality(e.kwmap)
+  ELSE /\ Values(sig, e, val) = o.b /\ VaValues(e, val) = o.va
+       /\ e.kwmap = Range(o.kw) /\ Len(o.kw) = Cardinality(e.kwmap)
+       /\ Len(o.kwv) = Len(o.kw) /\ \A j \in 1..Len(o.kw) : o.kwv[j] = ValOf(val, "k:" \o o.kw[j])
 
 SetToSeq(S) == LET RECURSIVE F(_)
                    F(T) == IF T = {} THEN <<>> ELSE LET x == CHOOSE y \in T : TRUE IN <<x>> \o F(T \ {x})
@@ -30,8 +38,8 @@ Check(g, j) ==
       o    == File.obs[g.calls[j][2]]
       R    == Range(g.res)
       e    == Bind(g.sig, call, R, {})
-  IN IF Same(g.sig, e, o) THEN TRUE
-     ELSE LET ex == { fs \in SUBSET AllFlags : fs # {} /\ Same(g.sig, Bind(g.sig, call, R, fs), o) } IN
+  IN IF Same(g.sig, e, o, g.val) THEN TRUE
+     ELSE LET ex == { fs \in SUBSET AllFlags : fs # {} /\ Same(g.sig, Bind(g.sig, call, R, fs), o, g.val) } IN
           PrintT("REJECT " \o ToJson([g |-> g.id, j |-> j, who |-> g.who, exp |-> e.k, obs |-> o.k,
                                       why |-> IF ex = {} THEN <<"unexplained">> ELSE SetToSeq(Smallest(ex))]))
 
